@@ -96,6 +96,9 @@ func c05Monitor(args []string) int {
 			mode = fmt.Sprintf("depth %d", sl.Depth)
 		case r < 5:
 			sl.Nodes = uint64(1 + rng.Intn(30000))
+			if rng.Chance(50) { // a stop during the very first iteration
+				sl.Nodes = uint64(1 + rng.Intn(60))
+			}
 			mode = fmt.Sprintf("nodes %d", sl.Nodes)
 		case r < 6:
 			sl.TimeControl = true
@@ -153,7 +156,7 @@ func c05Monitor(args []string) int {
 		if p.StringFen() != fenBefore || p.ZobristKey() != keyBefore {
 			rep.Violate("caller-position-changed", in, "position after the search: "+p.StringFen())
 		}
-		if d.nResults() != 1 {
+		if d.waitResults(1) != 1 {
 			rep.Violate("not-exactly-one-result", in, fmt.Sprintf("%d results", d.nResults()))
 			continue
 		}
